@@ -109,6 +109,10 @@ class Seam:
 
     def multinomial(self, probs=None, num_samples=1, replacement=False, *, generator=None, out=None, input=None):
         self.calls.append("multinomial")
+        if len(self.calls) > MAX_DRAWS:
+            # a redraw-until-feasible loop inside the library never ends under a deterministic answer: surfaced as an
+            # error of the execution (reported by the checks) instead of a hung check
+            raise SeamLoop(f"RNG seam: more than {MAX_DRAWS} draws in one execution (a resampling loop that never accepts the sampler's answer)")
         if probs is None:
             probs = input
         p2 = probs.reshape(-1, probs.shape[-1]) if probs.dim() > 1 else probs.reshape(1, -1)
@@ -327,6 +331,13 @@ def explore(run, max_dev=None, limit=200_000, seed=0, **seam_kw):
                 continue
             for alt in range(seam.points[i][1] - 1, 0, -1):
                 stack.append(ch[:i] + [alt])
+
+
+MAX_DRAWS = 20_000
+
+
+class SeamLoop(RuntimeError):
+    pass
 
 
 class ExplorationCapped(RuntimeError):
